@@ -84,6 +84,39 @@ theorem entWrite_acked (s : St) (k : Nat) (v : Int) (ts now : Int) (sn : Nat) :
     · rw [he.2.2.2]
     · rw [he.2.2.1]; exact isAckedBy_writeMessageAll _ _ _ _
 
+-- ------------------------------------------------------------------------------------------- evictWrite (KEEP_LAST replacement + entity write)
+
+theorem evictWrite_qos (s : St) (k : Nat) (v : Int) (ts now : Int) (sn : Nat) :
+    (evictWrite s k v ts now sn).1.qos = s.qos := by
+  unfold evictWrite; split
+  · rfl
+  · simp [entOut, entWrite_qos, evict]
+
+theorem evictWrite_pending (s : St) (k : Nat) (v : Int) (ts now : Int) (sn : Nat) :
+    (evictWrite s k v ts now sn).1.pending = s.pending := by
+  unfold evictWrite; split
+  · rfl
+  · simp [entOut, entWrite_pending, evict]
+
+theorem evictWrite_reply (s : St) (k : Nat) (v : Int) (ts now : Int) (sn : Nat) :
+    (evictWrite s k v ts now sn).2.reply = some .ok ∨ (evictWrite s k v ts now sn).2.reply = some .outOfResources := by
+  unfold evictWrite; split
+  · exact Or.inr rfl
+  · simp only [entOut]
+    rcases entWrite_reply (evict s k sn) k v ts now with h | h <;> simp [h]
+
+theorem evictWrite_acked (s : St) (k : Nat) (v : Int) (ts now : Int) (sn x : Nat) :
+    isAckedBy (evictWrite s k v ts now sn).1.proxies x = isAckedBy s.proxies x := by
+  unfold evictWrite; split
+  · rfl
+  · simp only [entOut]; rw [entWrite_acked]; rfl
+
+theorem evictWrite_evicted (s : St) (k : Nat) (v : Int) (ts now : Int) (sn x : Nat)
+    (h : x ∈ (evictWrite s k v ts now sn).2.evicted) : x = sn := by
+  unfold evictWrite at h; split at h
+  · simp at h
+  · simpa [entOut] using h
+
 -- ------------------------------------------------------------------------------------------- frames of the small steps
 
 theorem removeStale_frame (s : St) (now : Int) :
@@ -133,6 +166,14 @@ theorem unregisterW_frame (s : St) (k : Nat) (ts now : Int) :
 /-- KEEP_LAST(d): no instance holds more than d samples -/
 def DepthInv (d : Nat) (s : St) : Prop := s.qos.depth = some d ∧ LenOk d s.insts
 
+theorem evictWrite_lenOk (d : Nat) (h1 : 1 ≤ d) (s : St) (k : Nat) (v : Int) (ts now : Int) (sn : Nat)
+    (hd : s.qos.depth = some d) (hl : LenOk d s.insts) (hff : fullFront s k = some sn) :
+    LenOk d (evictWrite s k v ts now sn).1.insts := by
+  unfold evictWrite; split
+  · exact hl
+  · simp only [entOut]
+    exact entWrite_lenOk d _ k v ts now h1 (popFront_lenOk d k _ hl) (evict_room hd h1 hff)
+
 theorem methodWrite_depth (d : Nat) (h1 : 1 ≤ d) (s : St) (k : Nat) (v : Int) (ts now : Int) (h : DepthInv d s) :
     DepthInv d (methodWrite s k v ts now).1 := by
   obtain ⟨hd, hl⟩ := h
@@ -143,9 +184,7 @@ theorem methodWrite_depth (d : Nat) (h1 : 1 ≤ d) (s : St) (k : Nat) (v : Int) 
     · split
       · exact ⟨hd, hl⟩
       · exact ⟨hd, hl⟩
-    · simp only [entOut]
-      refine ⟨by rw [entWrite_qos]; exact hd, ?_⟩
-      exact entWrite_lenOk d _ k v ts now h1 (popFront_lenOk d k _ hl) (evict_room hd h1 hff)
+    · exact ⟨by rw [evictWrite_qos]; exact hd, evictWrite_lenOk d h1 s k v ts now _ hd hl hff⟩
   · rename_i hff
     simp only [entOut]
     refine ⟨by rw [entWrite_qos]; exact hd, ?_⟩
@@ -161,10 +200,9 @@ theorem processPending_depth (d : Nat) (h1 : 1 ≤ d) (s : St) (now : Int) (h : 
     split
     · split
       · rename_i sn hff
-        simp only [entOut]
-        refine ⟨by rw [entWrite_qos]; exact hd, ?_⟩
         have hff' : fullFront { s with pending := none } p.key = some sn := hff
-        exact entWrite_lenOk d _ _ _ _ now h1 (popFront_lenOk d _ _ hl) (evict_room (s := { s with pending := none }) hd h1 hff')
+        exact ⟨by rw [evictWrite_qos]; exact hd,
+          evictWrite_lenOk d h1 { s with pending := none } p.key p.val p.ts now _ hd hl hff'⟩
       · rename_i hff
         simp only [entOut]
         refine ⟨by rw [entWrite_qos]; exact hd, ?_⟩
@@ -221,11 +259,11 @@ theorem methodWrite_evicted (s : St) (k : Nat) (v : Int) (ts now : Int) (sn : Na
     · rw [if_pos hb] at hm
       split at hm <;> simp [Out.none] at hm
     · rw [if_neg hb] at hm ⊢
-      simp only [entOut, List.mem_singleton] at hm ⊢
-      subst hm
-      rw [entWrite_acked]
+      have := evictWrite_evicted s k v ts now sn0 sn hm
+      subst this
+      rw [evictWrite_acked]
       simp only [hr, Bool.true_and, Bool.not_eq_true, Bool.not_eq_false'] at hb
-      simpa [evict, isAcked] using hb
+      simpa [isAcked] using hb
 
 theorem processPending_evicted (s : St) (now : Int) (sn : Nat)
     (hm : sn ∈ (processPending s now).2.evicted) (hr : s.qos.reliable = true) :
@@ -239,13 +277,14 @@ theorem processPending_evicted (s : St) (now : Int) (sn : Nat)
       cases hff : fullFront s p.key with
       | none => simp [hff, entOut] at hm
       | some sn0 =>
-        simp only [hff, entOut, List.mem_singleton] at hm ⊢
-        subst hm
-        rw [entWrite_acked]
+        simp only [hff] at hm ⊢
+        have := evictWrite_evicted _ _ _ _ now sn0 sn hm
+        subst this
+        rw [evictWrite_acked]
         unfold canWrite at hcw
         rw [hff] at hcw
         simp only [hr, Bool.not_true, Bool.false_or] at hcw
-        simpa [evict, isAcked] using hcw
+        simpa [isAcked] using hcw
     · rw [if_neg hcw] at hm
       simp [Out.none] at hm
 
@@ -254,7 +293,9 @@ theorem processPending_qos (s : St) (now : Int) : (processPending s now).1.qos =
   split
   · rfl
   · split
-    · split <;> simp [entOut, entWrite_qos, evict]
+    · split
+      · rw [evictWrite_qos]
+      · simp [entOut, entWrite_qos]
     · rfl
 
 theorem methodWrite_qos (s : St) (k : Nat) (v : Int) (ts now : Int) : (methodWrite s k v ts now).1.qos = s.qos := by
@@ -262,7 +303,7 @@ theorem methodWrite_qos (s : St) (k : Nat) (v : Int) (ts now : Int) : (methodWri
   split
   · split
     · split <;> rfl
-    · simp [entOut, entWrite_qos, evict]
+    · rw [evictWrite_qos]
   · simp [entOut, entWrite_qos]
 
 /-- no event changes the QoS -/
